@@ -210,6 +210,25 @@ def check_end_never_cleared(ctx, rule: str) -> None:
         ok = not bad
         why = "when the stored decision is END the deletion is unreachable in that iteration" if ok else "an END decision can be cleared as stale (the loop restarts after END)"
     rep.add(rule, f"{f.qname}:END-terminal", ok, f"{f.module.rel}:{dels[0].lineno}", why)
+    # completeness: a recorded non-END decision of a gate that needs re-execution is always cleared
+    from .common import must_reach_in_iteration
+
+    loops = [n for n in cfg.nodes if n.kind == "for"]
+    val = {}
+    for t in cfg.nodes:
+        if t.kind != "test" or t.ast is None:
+            continue
+        for c in ast.walk(t.ast):
+            if isinstance(c, ast.Call) and "_needs_execution" in call_names(db, c, f):
+                val[src(c)] = True
+            if isinstance(c, ast.Call) and dotted(c.func) == "isinstance":
+                val[src(c)] = True
+            if isinstance(c, ast.Compare) and isinstance(c.ops[0], ast.In) and "routing_decisions" in src(c.comparators[0]):
+                val[src(c)] = True
+    for t in end_tests:
+        val[src(ast.Compare(t.ast.left, [ast.Is()], t.ast.comparators))] = False
+    ok2 = bool(loops) and bool(val) and must_reach_in_iteration(cfg, loops[0], dels, val)
+    rep.add(rule, f"{f.qname}:needs-execution-suffices", ok2, f"{f.module.rel}:{dels[0].lineno}", "a recorded non-END decision is cleared whenever its gate needs re-execution — no further condition" if ok2 else "a stale decision survives although its gate needs re-execution (the clear depends on an additional condition, e.g. wait_for freshness): targets re-run on the outdated decision before the gate re-decides")
 
 
 def _expand(cfg, n) -> str:
